@@ -156,12 +156,15 @@ def c07_subsetter(ctx, repo):
     ok = any(c == sorted(want_any) for c in conds)
     ctx.ob("SUB-order", f.where, "tables without a subsetter are deleted unless passthrough", ok, "" if ok else f"fallthrough arm changed: {conds}")
     cg = sm.func("Subsetter._closure_glyphs")
-    srcs = {norm(n.targets[0]): n.value for n in walk_no_nested(cg.node) if isinstance(n, ast.Assign)}
-    ngo = [n for n in walk_no_nested(cg.node) if isinstance(n, ast.Assign) and norm(n.targets[0]) == "new_glyph_order"]
-    ok = bool(ngo) and all(isinstance(n.value, ast.ListComp) and norm(n.value.generators[0].iter) == "glyph_order" and norm(n.value.elt) == "g" for n in ngo)
+    from ..core import walk_closure
+
+    clos = list(walk_closure(repo, cg))  # the block may have been moved into a private method (extract method)
+    srcs = {norm(n.targets[0]): n.value for n in clos if isinstance(n, ast.Assign)}
+    ngo = [n for n in clos if isinstance(n, ast.Assign) and norm(n.targets[0]) == "new_glyph_order"]
+    ok = bool(ngo) and all(isinstance(n.value, ast.ListComp) and norm(n.value.generators[0].iter) == "glyph_order" and norm(n.value.elt) == norm(n.value.generators[0].target) for n in ngo)
     ctx.ob("SUB-order", cg.where, "new_glyph_order = [g for g in glyph_order if ...] (order-preserving filter of the old order)", ok)
     gim = srcs.get("self.glyph_index_map")
-    ok = gim is not None and norm(gim) == "{order[new_glyph_order[i]]: i for i in range(len(new_glyph_order))}"
+    ok = gim is not None and isinstance(gim, ast.DictComp) and len(gim.generators) == 1 and norm(gim.generators[0].iter) == "range(len(new_glyph_order))" and norm(gim.key) == f"order[new_glyph_order[{norm(gim.generators[0].target)}]]" and norm(gim.value) == norm(gim.generators[0].target)
     ctx.ob("SUB-order", cg.where, "glyph_index_map = {old gid of new_glyph_order[i]: i}", ok, "" if ok else "gid remap is not derived from the same new order list")
 
 
@@ -888,6 +891,48 @@ def c07_closure_registry(ctx, repo):
         b2.append(s_)
     diff = [(x, y) for x, y in zip(a, b2) if x != y]
     ok = len(a) == len(b2) and not diff
+    if not ok:
+        # the per-map statements may have been folded into loops over the map names: compare (map, operation) sets and
+        # the remaining statements separately
+        def split_ops(f):
+            ops, rest = set(), []
+            for st in f.node.body:
+                if isinstance(st, ast.Expr) and isinstance(st.value, ast.Constant):
+                    continue
+                names = None
+                body = None
+                var = None
+                if isinstance(st, ast.If) and isinstance(st.test, ast.Attribute) and norm(st.test.value) == "table" and st.test.attr.endswith("Map") and not st.orelse:
+                    names, body, var = [st.test.attr], st.body, norm(st.test)
+                elif isinstance(st, ast.For) and isinstance(st.iter, (ast.Tuple, ast.List)) and all(isinstance(e, ast.Constant) and str(e.value).endswith("Map") for e in st.iter.elts):
+                    names = [e.value for e in st.iter.elts]
+                    inner = [x for x in st.body if isinstance(x, ast.If)]
+                    alias = [x for x in st.body if isinstance(x, ast.Assign) and "getattr(table" in norm(x.value)]
+                    if len(inner) == 1 and alias:
+                        body, var = inner[0].body, norm(alias[0].targets[0])
+                if names is None or body is None:
+                    rest.append(norm(st))
+                    continue
+                for b_ in body:
+                    t_ = norm(b_).replace(var, "<MAP>")
+                    for nm in names:
+                        ops.add((nm, t_.replace(nm, "<MAP>")))
+            return ops, rest
+
+        oh, rh = split_ops(hv)
+        ov, rv = split_ops(vv)
+        oh2 = {(MAP.get(m_, m_), t_) for m_, t_ in oh}
+        ov2 = {(m_, t_) for m_, t_ in ov if m_ != "VOrgMap"}
+        rh2 = []
+        for s_ in rh:
+            for a_, b_ in MAP.items():
+                s_ = s_.replace(a_, b_)
+            rh2.append(s_)
+        vorg = {t_ for m_, t_ in ov if m_ == "VOrgMap"}
+        tsb = {t_ for m_, t_ in ov if m_ == "TsbMap"}
+        ok = bool(oh) and oh2 == ov2 and rh2 == [x for x in rv if "VOrgMap" not in x] and vorg == tsb
+        if not ok:
+            diff = diff or [(sorted(oh2 ^ ov2)[:2], [x for x, y in zip(rh2, rv) if x != y][:1])]
     ctx.ob("F22-hvar", vv.where, f"HVAR.subset_glyphs mapped to vertical names == VVAR.subset_glyphs minus VOrgMap ({len(a)} statements)", ok, "" if ok else f"the twins differ: {diff[:1] or (len(a), len(b2))}")
 
 
